@@ -144,7 +144,24 @@ func Run(ctx *common.Ctx) int {
 		data := enum.FillerBytes(L, uint64(ctx.Seed)+uint64(L))
 		bevals += int64(byteCalls(data, func() interface{} { return map[string]interface{}{"filler_bytes": L, "seed": ctx.Seed + int64(L)} }))
 	}
-	cmp.Count("byte entry points: 1-byte patterns x 41 lengths x one replaced byte, fillers of 1..300 bytes", bevals)
+	// large byte inputs: a pattern count above 65535 (m=4 from 0.5 MiB, m=8 from 16 MiB of near-uniform data)
+	for _, L := range []int{125000, 1 << 20, 17 << 20} {
+		if ctx.Expired() {
+			exhaustive = false
+			break
+		}
+		data := enum.FillerBytes(L, uint64(ctx.Seed)+uint64(L))
+		bevals += int64(byteCalls(data, func() interface{} { return map[string]interface{}{"filler_bytes": L, "seed": ctx.Seed + int64(L)} }))
+		if L == 125000 {
+			for i := range data {
+				if i%3 != 0 {
+					data[i] = 0x5A
+				}
+			}
+			bevals += int64(byteCalls(data, func() interface{} { return map[string]interface{}{"filler_bytes": L, "two_thirds": "0x5A"} }))
+		}
+	}
+	cmp.Count("byte entry points: 1-byte patterns x 41 lengths x one replaced byte, fillers of 1..300 bytes, 125000 bytes, 1 MiB, 17 MiB", bevals)
 	// S2: base patterns repeated to boundary-rich lengths with <= 1 (thorough <= 2) bit flips at critical positions
 	type lenSpec struct {
 		n       int
